@@ -20,14 +20,26 @@
 //   signal N / asan / abort / timeout / exit                                                               VIOLATION
 //   foreign-free / double-free   the manager was handed a pointer it does not own / twice                  VIOLATION
 //   leak-outside-manager         heap bytes not owned by the manager grew more than in the fault-free run  VIOLATION
+//   ubsan              UndefinedBehaviorSanitizer reported a runtime error during the run (no other verdict)  VIOLATION
 //   golden-failed      the new transformer did not produce the exact golden output                         VIOLATION
 //   not-reached        the run made fewer than k allocations (allocation sequence not deterministic)       VIOLATION
 // Signature of a violation (stable across runs, independent of k and of addresses): outcome + the THROW SITE = the
-// innermost in-library frames (inlined frames included, template arguments stripped) of the stack captured inside
+// innermost library frames (inlined frames included, template arguments stripped) of the stack captured inside
 // allocate() when it throws: all leading container/allocator plumbing frames plus the first frame that is not
-// plumbing, e.g.  terminate|XalanList::allocate<-XalanList::getListHead<-XalanList::begin<-XalanDOMStringCache::clear
-// For terminate the noexcept barrier (frame that called __clang_call_terminate) is appended as |in=...; for a signal
-// the crash site is used instead of the throw site.
+// plumbing, e.g.  terminate|XalanList::getListHead<-XalanList::begin<-ArenaAllocator::reset<-XObjectFactoryDefault::reset
+// Frames are classified by their qualified NAME (xalanc_*/xercesc_* = library, anonymous namespace/main = harness).
+//   terminate        + |in=<frame that called __clang_call_terminate>  (the noexcept barrier; "unwinder" if none)
+//   signal N         signalN|at=<crash site, 3 library frames>|after-throw-at=<throw site>
+//   swallowed-wrong  swallowed-wrong|caught-in=<function whose handler caught the injected bad_alloc last>
+//   ubsan            ubsan|<File:line: runtime error: message, addresses removed>
+//   foreign/double   foreign-free|at=<library frames calling deallocate()>
+//   fault-free run   fault-free|<case>|unbalanced|outstanding=<n>, fault-free|<case>|foreign-free|at=..., fault-free|ubsan|<line>
+//   init case        every signature is prefixed with "init:"
+// Symbolisation: llvm-symbolizer --inlines, one batch per process, against the file that is actually mapped (a library
+// rebuilt on disk during the run is read through /proc/<pid>/map_files).
+// Development aids (never set by checks/c19.py): C19_ONLY=case[,case] restricts a run; C19_SYMDEBUG=<prefix> keeps the
+// symboliser request/response; C19_LSAN=1 with ASAN_OPTIONS=detect_leaks=1 LSAN_OPTIONS=leak_check_at_exit=0 lets a
+// replay name the allocation site of a block leaked outside the manager (checks/c19.py --replay sets these).
 // LDLIBS: -ldl
 // CXXFLAGS: -DNDEBUG -fvisibility=hidden -fvisibility-inlines-hidden
 // (Inline/template code of the library headers that gets instantiated in this executable would otherwise be exported and
@@ -47,6 +59,7 @@
 #include <unordered_map>
 #include <unordered_set>
 #include <sanitizer/allocator_interface.h>
+#include <sanitizer/lsan_interface.h>
 
 #include <xercesc/framework/MemoryManager.hpp>
 #include <xercesc/sax/EntityResolver.hpp>
@@ -72,12 +85,12 @@ namespace {
 enum Outcome
 {
     O_NONE = 0, O_SURFACED, O_SWALLOWED_OK, O_SWALLOWED_WRONG, O_SILENT_ERROR, O_TERMINATE, O_SIGNAL, O_ASAN,
-    O_FOREIGN, O_DOUBLE, O_LEAK_OUTSIDE, O_GOLDEN, O_NOT_REACHED, O_UNBALANCED, O_TIMEOUT, O_EXIT, O_BASELINE_OK, O_COUNT_
+    O_FOREIGN, O_DOUBLE, O_LEAK_OUTSIDE, O_GOLDEN, O_NOT_REACHED, O_UNBALANCED, O_TIMEOUT, O_EXIT, O_BASELINE_OK, O_UBSAN, O_COUNT_
 };
 
 const char* const kOutcomeName[] = {
     "none", "surfaced", "swallowed-ok", "swallowed-wrong", "silent-error", "terminate", "signal", "asan",
-    "foreign-free", "double-free", "leak-outside-manager", "golden-failed", "not-reached", "unbalanced", "timeout", "exit", "baseline-ok" };
+    "foreign-free", "double-free", "leak-outside-manager", "golden-failed", "not-reached", "unbalanced", "timeout", "exit", "baseline-ok", "ubsan" };
 
 bool isViolation(int o)
 {
@@ -108,6 +121,7 @@ struct Report
 
 Report* g_rep = 0;
 volatile int g_recordCatches = 0;     // child: the case body is running
+int g_timeoutScale = 1;               // 10 when a timed-out case is re-run alone (DESIGN 2.6)
 
 void setStr(char* dst, size_t cap, const char* s)
 {
@@ -594,6 +608,7 @@ struct Case
     long long           N;
     std::string         ref;        // serialised fault-free result
     long long           refHeapDelta;
+    std::string         refUbsan;   // UBSan report line of the fault-free run, if any (reported once, not per k)
     uint64_t            offset;     // global index of k = 1
     Case() : init(false), N(0), refHeapDelta(0), offset(0) {}
 };
@@ -732,7 +747,7 @@ size_t heapNow() { return __sanitizer_get_current_allocated_bytes(); }
 void childRunCase(const Case& cs, long long failAt)
 {
     installChildHandlers();
-    alarm(30);
+    alarm(30 * g_timeoutScale);
     Rec* rec = new Rec;
     FixedBuf* warnBuf = new FixedBuf;
     std::ostream* warnStream = new std::ostream(warnBuf);
@@ -788,6 +803,8 @@ void childRunCase(const Case& cs, long long failAt)
         std::string why;
         if (!runGolden(why)) { o = O_GOLDEN; setStr(r.msg, sizeof r.msg, why.c_str()); }
     }
+    // diagnostics for replay: with ASAN_OPTIONS=detect_leaks=1 LeakSanitizer names the allocation site of the leaked block
+    if (o == O_LEAK_OUTSIDE && getenv("C19_LSAN")) __lsan_do_recoverable_leak_check();
     r.outcome = o;
     _exit(0);
 }
@@ -796,7 +813,7 @@ void childRunCase(const Case& cs, long long failAt)
 void childRunInit(const Case& cs, long long failAt)
 {
     installChildHandlers();
-    alarm(60);
+    alarm(60 * g_timeoutScale);
     char excMsg[400]; excMsg[0] = 0;
     Report& r = *g_rep;
     long long allocs = 0, outstanding = 0;
@@ -873,6 +890,8 @@ struct RunResult
     }
 };
 
+std::string ubsanLine(const std::string& err);
+
 int g_errFd = -1;   // per-process scratch file receiving the children's stderr
 
 RunResult forkRun(const Case& cs, long long failAt)
@@ -917,6 +936,18 @@ RunResult forkRun(const Case& cs, long long failAt)
             rr.stderrText = buf;
         }
     }
+    // A UBSan report (recover mode: the run goes on) is a verdict of its own unless the run ended worse. It also takes
+    // precedence over leak-outside-manager: printing the report makes the sanitizer runtime keep demangling buffers.
+    // A report that the fault-free run of the case prints as well is reported once for the case, not for every k.
+    if (failAt != 0 && (rr.outcome == O_LEAK_OUTSIDE || !isViolation(rr.outcome)) && rr.stderrText.find("runtime error:") != std::string::npos)
+    {
+        const std::string ub = ubsanLine(rr.stderrText);
+        if (ub != cs.refUbsan)
+        {
+            rr.outcome = O_UBSAN;
+            rr.msg = ub;
+        }
+    }
     return rr;
 }
 
@@ -931,6 +962,50 @@ struct Symboliser
     std::map<void*, std::string>         module;
     std::map<void*, std::string>         where;                 // module+offset of the looked-up pc
     int                                  mismatches = 0;        // answers != questions: names cannot be trusted
+
+    std::map<std::string, std::string>   objCache;
+    int                                  replacedObjects = 0;   // library file replaced on disk while this process runs
+
+    // The file to symbolise against: normally the path dladdr() reports. If that file has been replaced on disk since
+    // it was mapped (a concurrent rebuild of the library), the offsets belong to the OLD file, which is still reachable
+    // through /proc/<pid>/map_files/<range> while this process lives.
+    std::string objectFor(const std::string& fname)
+    {
+        std::map<std::string, std::string>::iterator it = objCache.find(fname);
+        if (it != objCache.end()) return it->second;
+        std::string obj = fname;
+        char real[4096];
+        const std::string want = realpath(fname.c_str(), real) ? std::string(real) : fname;
+        FILE* f = fopen("/proc/self/maps", "r");
+        if (f != 0)
+        {
+            char* line = 0; size_t cap = 0;
+            while (getline(&line, &cap, f) >= 0)
+            {
+                unsigned long a = 0, b = 0, off = 0, ino = 0; unsigned dmaj = 0, dmin = 0; char perms[8]; int n = 0;
+                if (sscanf(line, "%lx-%lx %7s %lx %x:%x %lu %n", &a, &b, perms, &off, &dmaj, &dmin, &ino, &n) < 7 || off != 0 || ino == 0) continue;
+                std::string path(line + n);
+                while (!path.empty() && (path.back() == '\n' || path.back() == ' ')) path.pop_back();
+                bool deleted = false;
+                const std::string del = " (deleted)";
+                if (path.size() > del.size() && path.compare(path.size() - del.size(), del.size(), del) == 0) { deleted = true; path.resize(path.size() - del.size()); }
+                if (path != fname && path != want) continue;
+                struct stat sb;
+                if (deleted || stat(path.c_str(), &sb) != 0 || (unsigned long)sb.st_ino != ino)
+                {
+                    char alt[128];
+                    snprintf(alt, sizeof alt, "/proc/%d/map_files/%lx-%lx", (int)getpid(), a, b);
+                    obj = alt;
+                    ++replacedObjects;
+                }
+                break;
+            }
+            free(line);
+            fclose(f);
+        }
+        objCache[fname] = obj;
+        return obj;
+    }
 
     static std::string demangle(const char* n)
     {
@@ -961,7 +1036,7 @@ struct Symboliser
                 where[a] = w;
             }
             char line[1200];
-            snprintf(line, sizeof line, "\"%s\" 0x%llx\n", di.dli_fname, (unsigned long long)((uintptr_t)pc - (uintptr_t)di.dli_fbase));
+            snprintf(line, sizeof line, "\"%s\" 0x%llx\n", objectFor(di.dli_fname).c_str(), (unsigned long long)((uintptr_t)pc - (uintptr_t)di.dli_fbase));
             req += line;
             todo.push_back(a);
             // fallback if the symboliser gives nothing
@@ -1170,6 +1245,16 @@ std::string ubsanLine(const std::string& err)
     b = b == std::string::npos ? 0 : b + 1;
     size_t e = err.find('\n', p);
     std::string l = err.substr(b, e == std::string::npos ? std::string::npos : e - b);
+    {
+        // "/repo/src/.../File.hpp:107:41: runtime error: ..." -> "File.hpp:107: runtime error: ..."
+        const size_t re = l.find(": runtime error:");
+        const size_t sl = l.rfind('/', re);
+        if (sl != std::string::npos && sl < re) l.erase(0, sl + 1);
+        const size_t c1 = l.find(':');
+        const size_t c2 = c1 == std::string::npos ? c1 : l.find(':', c1 + 1);
+        const size_t c3 = c2 == std::string::npos ? c2 : l.find(':', c2 + 1);
+        if (c3 != std::string::npos && l.compare(c3, 16, ": runtime error:") == 0) l.erase(c2, c3 - c2);   // drop the column
+    }
     // addresses in the message are not stable
     std::string o;
     for (size_t i = 0; i < l.size(); ++i)
@@ -1209,6 +1294,7 @@ std::string signatureCore(Symboliser& sy, const RunResult& rr)
     case O_TERMINATE:   return "terminate|" + site + "|in=" + terminateBarrier(sy, rr.crashBt);
     case O_SIGNAL:      return "signal" + std::to_string(rr.sig) + "|at=" + crashSiteChain(sy, rr.crashBt) + "|after-throw-at=" + site;
     case O_ASAN:        return "asan|" + rr.msg + "|after-throw-at=" + site;
+    case O_UBSAN:       return "ubsan|" + rr.msg;
     case O_FOREIGN:     return "foreign-free|at=" + crashSiteChain(sy, rr.crashBt);
     case O_DOUBLE:      return "double-free|at=" + crashSiteChain(sy, rr.crashBt);
     default:            return rr.outcomeName() + "|" + site;
@@ -1311,6 +1397,7 @@ RunResult baseline(Case& cs)
     cs.N = rr.allocs;
     cs.ref = rr.result;
     cs.refHeapDelta = rr.heapDelta;
+    cs.refUbsan = ubsanLine(rr.stderrText);
     return rr;
 }
 
@@ -1359,6 +1446,15 @@ struct Engine
                 out.count("allocations_total", c.N);
                 out.count("N:" + c.name, c.N);
             }
+            if (b.outcome == O_BASELINE_OK && !c.refUbsan.empty() && shard == 0)
+            {
+                // undefined behaviour without any fault: reported once; the sweep goes on
+                RunResult u = b;
+                u.outcome = O_UBSAN;
+                u.msg = c.refUbsan;
+                viol(c, 0, u, "fault-free|ubsan|" + c.refUbsan);
+                out.count("outcome:fault-free-ubsan");
+            }
             if (b.outcome != O_BASELINE_OK)
             {
                 // unbalanced / foreign free / crash without any fault: reported once (shard 0); no fault sweep possible
@@ -1382,12 +1478,17 @@ struct Engine
                 p.rr = forkRun(c, k);
                 if (isViolation(p.rr.outcome))
                 {
-                    // DESIGN 2.6: a violating case is re-run alone; only a verdict that reproduces is reported as such
+                    // DESIGN 2.6: a violating case is re-run alone and only a verdict that reproduces is reported;
+                    // a timed-out case is re-run with ten times the limit before it is called a hang.
+                    g_timeoutScale = p.rr.outcome == O_TIMEOUT ? 10 : 1;
                     RunResult again = forkRun(c, k);
+                    g_timeoutScale = 1;
                     if (again.outcome != p.rr.outcome || again.sig != p.rr.sig)
                     {
-                        p.rr.msg = "verdict did not reproduce: first " + p.rr.outcomeName() + ", then " + again.outcomeName() + ". " + p.rr.msg;
-                        out.count("flaky");
+                        out.count("unreproduced_verdicts");
+                        out.count("unreproduced:" + p.rr.outcomeName() + "->" + again.outcomeName());
+                        again.msg = "first run of this case ended as " + p.rr.outcomeName() + ", the re-run alone as reported here. " + again.msg;
+                        p.rr = again;
                     }
                 }
                 // keep memory bounded: only the frames the signature needs, unless violating
@@ -1425,16 +1526,7 @@ struct Engine
                 out.count("site:" + site);
             }
             if (rr.outstanding > 0 && !isViolation(rr.outcome)) out.count("left_blocks_to_the_manager");
-            std::string ub = ubsanLine(rr.stderrText);
-            if (isViolation(rr.outcome))
-            {
-                viol(c, p.k, rr, signatureOf(sy, rr, c.init));
-            }
-            else if (!ub.empty())
-            {
-                out.count("outcome:ubsan-report");
-                viol(c, p.k, rr, "ubsan|" + ub);
-            }
+            if (isViolation(rr.outcome)) viol(c, p.k, rr, signatureOf(sy, rr, c.init));
             // samples: first of each shard, plus the first violating ones
             if (nSamples < 2 || (isViolation(rr.outcome) && nSamples < 5))
             {
@@ -1444,6 +1536,7 @@ struct Engine
             }
         }
         if (sy.mismatches != 0) out.count("symboliser_mismatch", sy.mismatches);
+        if (sy.replacedObjects != 0) out.count("library_replaced_on_disk_during_run", sy.replacedObjects);
         for (auto& kv : out.counts) printf("count\t%s\t%lld\n", escField(kv.first).c_str(), kv.second);
         for (auto& v : out.viols) printf("viol\t%s\t%s\n", escField(v.first).c_str(), escField(v.second).c_str());
         for (auto& s : sampleLines) printf("sample\t%s\n", escField(s).c_str());
